@@ -90,4 +90,93 @@ theorem iter_fixed {τ : Type} (f : τ → τ) (x : τ) (h : f x = x) (n : Nat) 
   | zero => rfl
   | succ n ih => simp only [iter, ih, h]
 
+/-! ## closed forms of the implementation's schedule loops -/
+theorem iter_pair {s : Nat} (f : Cells s → Cells s) (g : BitVec 8 → BitVec 8) (n : Nat) (c : Cells s) (r : BitVec 8) :
+    iter (fun (p : Cells s × BitVec 8) => (f p.1, g p.2)) n (c, r) = (iter f n c, iter g n r) := by
+  induction n with
+  | zero => rfl
+  | succ n ih => simp only [iter, ih]
+
+section impl
+variable {b h s : Nat} (A : Abs b h s) (o : SkinnyOps b h) (hc : OpsCorrectG A o)
+include hc
+
+/-- `set_tk1`: entry `i` = upper rows of `PT^i(TK1)` xor the constants of round `i` (and the domain bit) -/
+theorem setTk1_spec (ks : KeySched h) (key : Bytes) (tweaked : Bool) (hlen : ks.rounds ≤ ks.sched.length) :
+    (setTk1 o ks key tweaked).rounds = ks.rounds ∧ (setTk1 o ks key tweaked).sched.length = ks.sched.length ∧
+    (∀ i, i < ks.rounds → A.top ((setTk1 o ks key tweaked).sched.getD i 0) =
+      xorCells (topRows (iter (permute PT) i (A.cells (image b key))))
+               (constTop s (iter rcStep8 (i + 1) 0) (if tweaked then 2 else 0))) ∧
+    (∀ i, ks.rounds ≤ i → (setTk1 o ks key tweaked).sched.getD i 0 = ks.sched.getD i 0) := by
+  have key0 : o.tk1Load (image b key) = (image b key, 0) := hc.tk1Load _
+  cases tweaked
+  · have hf := schedFold_abs (d := (0 : BitVec h))
+      (step := fun (_ : BitVec h) (st : BitVec b × BitVec 8) => let p := o.tk1Step0 st.1 st.2; (p.1, (p.2.1, p.2.2)))
+      (absS := fun st => (A.cells st.1, st.2)) (absE := A.top)
+      (nextA := fun (p : Cells s × BitVec 8) => (permute PT p.1, rcStep8 p.2))
+      (F := fun _ p => xorCells (topRows p.1) (constTop s (rcStep8 p.2) 0))
+      (by intro e st; simp only [hc.tk1Step0_tk, hc.tk1Step0_rc])
+      (by intro e st; simp only [hc.tk1Step0_e])
+      ks.rounds ks.sched (image b key, 0) hlen
+    obtain ⟨_, h2, h3, h4⟩ := hf
+    simp only [setTk1, key0, Bool.false_eq_true, if_false]
+    refine ⟨by trivial, h2, ?_, h4⟩
+    intro i hi
+    rw [h3 i hi, iter_pair]
+    rfl
+  · have hf := schedFold_abs (d := (0 : BitVec h))
+      (step := fun (_ : BitVec h) (st : BitVec b × BitVec 8) => let p := o.tk1Step1 st.1 st.2; (p.1, (p.2.1, p.2.2)))
+      (absS := fun st => (A.cells st.1, st.2)) (absE := A.top)
+      (nextA := fun (p : Cells s × BitVec 8) => (permute PT p.1, rcStep8 p.2))
+      (F := fun _ p => xorCells (topRows p.1) (constTop s (rcStep8 p.2) 2))
+      (by intro e st; simp only [hc.tk1Step1_tk, hc.tk1Step1_rc])
+      (by intro e st; simp only [hc.tk1Step1_e])
+      ks.rounds ks.sched (image b key, 0) hlen
+    obtain ⟨_, h2, h3, h4⟩ := hf
+    simp only [setTk1, key0, if_true]
+    refine ⟨by trivial, h2, ?_, h4⟩
+    intro i hi
+    rw [h3 i hi, iter_pair]
+    rfl
+
+/-- `xor_tk1`: entry `i` is xored with the upper rows of `PT^i(TK1)` -/
+theorem xorTk1_spec (ks : KeySched h) (key : Bytes) (hlen : ks.rounds ≤ ks.sched.length) :
+    (xorTk1 o ks key).rounds = ks.rounds ∧ (xorTk1 o ks key).sched.length = ks.sched.length ∧
+    (∀ i, i < ks.rounds → A.top ((xorTk1 o ks key).sched.getD i 0) =
+      xorCells (A.top (ks.sched.getD i 0)) (topRows (iter (permute PT) i (A.cells (image b key))))) ∧
+    (∀ i, ks.rounds ≤ i → (xorTk1 o ks key).sched.getD i 0 = ks.sched.getD i 0) := by
+  have hf := schedFold_abs (d := (0 : BitVec h)) (step := o.xorTk1Step) (absS := A.cells) (absE := A.top)
+    (nextA := permute PT) (F := fun e c => xorCells e (topRows c))
+    (by intro e st; exact hc.xorTk1Step_tk e st) (by intro e st; exact hc.xorTk1Step_e e st)
+    ks.rounds ks.sched (image b key) hlen
+  obtain ⟨_, h2, h3, h4⟩ := hf
+  simp only [xorTk1, hc.xorTk1Load]
+  exact ⟨by trivial, h2, h3, h4⟩
+
+/-- `set_tk2` / `set_tk3` on a loaded tweakey word `tk0` -/
+theorem setTkN_spec (which : Bool) (ks : KeySched h) (key : Bytes) (keySize : Nat) (junk : BitVec b)
+    (hlen : ks.rounds ≤ ks.sched.length) :
+    let tk0 := (if which then o.tk3Load else o.tk2Load) keySize junk (image b (key.take keySize))
+    let f := fun c => mapTop (if which then A.co.lfsr3 else A.co.lfsr2) (permute PT c)
+    (setTkN o which ks key keySize junk).rounds = ks.rounds ∧ (setTkN o which ks key keySize junk).sched.length = ks.sched.length ∧
+    (∀ i, i < ks.rounds → A.top ((setTkN o which ks key keySize junk).sched.getD i 0) =
+      xorCells (A.top (ks.sched.getD i 0)) (topRows (iter f i (A.cells tk0)))) ∧
+    (∀ i, ks.rounds ≤ i → (setTkN o which ks key keySize junk).sched.getD i 0 = ks.sched.getD i 0) := by
+  cases which
+  · have hf := schedFold_abs (d := (0 : BitVec h)) (step := o.tk2Step) (absS := A.cells) (absE := A.top)
+      (nextA := fun c => mapTop A.co.lfsr2 (permute PT c)) (F := fun e c => xorCells e (topRows c))
+      (by intro e st; exact hc.tk2Step_tk e st) (by intro e st; exact hc.tk2Step_e e st)
+      ks.rounds ks.sched (o.tk2Load keySize junk (image b (key.take keySize))) hlen
+    obtain ⟨_, h2, h3, h4⟩ := hf
+    simp only [setTkN, Bool.false_eq_true, if_false]
+    exact ⟨by trivial, h2, h3, h4⟩
+  · have hf := schedFold_abs (d := (0 : BitVec h)) (step := o.tk3Step) (absS := A.cells) (absE := A.top)
+      (nextA := fun c => mapTop A.co.lfsr3 (permute PT c)) (F := fun e c => xorCells e (topRows c))
+      (by intro e st; exact hc.tk3Step_tk e st) (by intro e st; exact hc.tk3Step_e e st)
+      ks.rounds ks.sched (o.tk3Load keySize junk (image b (key.take keySize))) hlen
+    obtain ⟨_, h2, h3, h4⟩ := hf
+    simp only [setTkN, if_true]
+    exact ⟨by trivial, h2, h3, h4⟩
+
+end impl
 end SkinnyVerif.Lemmas
